@@ -428,10 +428,34 @@ func (vc *FuncVC) siteAsserts(st *State, reach Term, ins *ssa.Call, site string)
 	}
 	for i, a := range as {
 		env := vc.env(st, vars)
-		t := env.boolean(a.E)
 		label := a.Name
 		if label == "" {
 			label = fmt.Sprintf("%d", i+1)
+		}
+		var t Term
+		ok := func() (ok bool) {
+			defer func() {
+				if r := recover(); r != nil {
+					msg := fmt.Sprint(r)
+					if !strings.HasPrefix(msg, "spec:") {
+						panic(r)
+					}
+					// the assertion names something the code no longer has (a local, a parameter): a stale proof step
+					note := fmt.Sprintf("%s: the assertion [%s] before %s cannot be evaluated (%s): dropped", vc.name, label, site, msg)
+					for _, s := range vc.Stale {
+						if s == note {
+							return
+						}
+					}
+					vc.Stale = append(vc.Stale, note)
+				}
+			}()
+			t = env.boolean(a.E)
+			return true
+		}()
+		vc.assertsSeen[site] = true
+		if !ok {
+			continue
 		}
 		vc.oblige("R", fmt.Sprintf("assert/%s/%s", site, label), reach, t, clauseTags(a, vc.propTags()), ins.Pos(), a.Src)
 		vc.assume(Implies(reach, t))
